@@ -1165,7 +1165,7 @@ impl Prop for History {
     fn floors(&self) -> Vec<(&'static str, u64, u64)> {
         match self.0 {
             Which::NoCrash => vec![("searches", 20000, 200000), ("searches with hits", 5000, 50000), ("joined-record hits (two spans from a one-word query)", 50, 500), ("non-ASCII queries", 2000, 20000), ("limit 0", 200, 2000), ("limit 65536", 200, 2000), ("histories with boundary-value record ids", 2000, 20000), ("long-text searches", 500, 5000), ("long-text searches with a query over 255 characters", 100, 1000), ("corpus-store searches", 300, 3000), ("long-text cases with a giant word or a 1000+ word title", 20, 200), ("soak searches on one store", 600000, 2500000), ("most searches on one store max ", 66000, 66000), ("soak stores with more than 2^16 records", 2, 8), ("adds re-using the id of an earlier record", 5000, 50000), ("registry: searches", 10000, 300000), ("registry: searches with hits", 1500, 45000), ("registry: limit changes", 5000, 150000), ("registry: readers that call back into the registry", 1500, 45000), ("code points put through a store", 1000000, 1000000)],
-            Which::NoStale => vec![("search after add following an earlier search", 2000, 20000), ("search after clear following an earlier search", 500, 5000), ("search after limit following an earlier search", 500, 5000), ("empty-query search after a mutation following an earlier search", 1000, 10000), ("exhaustive histories", 20000, 200000), ("histories on a crowded store", 2000, 20000), ("histories that clear and refill a crowded store", 2000, 20000), ("histories growing a store past 64/128/256/512 records with searches in between", 200, 5000), ("histories growing a store past 1024 records with searches in between", 60, 1500), ("soak searches on one store", 1000000, 4000000), ("search repeating the previous query after a mutation", 2000, 20000), ("operations on another store of the same thread inside a history", 3000, 30000), ("registry-driven searches compared with a fresh store", 5000, 50000), ("adds re-using the id of an earlier record", 3000, 30000), ("histories whose searches run on other threads than the adds (the store is moved there and back)", 1500, 15000), ("histories whose reference stores are built and searched on threads of their own", 3000, 30000), ("histories with a very long word next to a threshold match", 2000, 20000), ("histories with more than twenty fully tied records and a shrinking limit", 2000, 20000), ("histories with two lives of the same size ending in the same query", 2000, 20000), ("histories in which a text is followed by its own normalised spelling", 2000, 20000)],
+            Which::NoStale => vec![("search after add following an earlier search", 2000, 20000), ("search after clear following an earlier search", 500, 5000), ("search after limit following an earlier search", 500, 5000), ("empty-query search after a mutation following an earlier search", 1000, 10000), ("exhaustive histories", 20000, 200000), ("histories on a crowded store", 2000, 20000), ("histories that clear and refill a crowded store", 2000, 20000), ("histories growing a store past 64/128/256/512 records with searches in between", 200, 5000), ("histories growing a store past 1024 records with searches in between", 60, 1500), ("soak searches on one store", 1000000, 4000000), ("search repeating the previous query after a mutation", 2000, 20000), ("operations on another store of the same thread inside a history", 3000, 30000), ("registry-driven searches compared with a fresh store", 5000, 50000), ("adds re-using the id of an earlier record", 3000, 30000), ("histories whose searches run on other threads than the adds (the store is moved there and back)", 1500, 15000), ("histories whose reference stores are built and searched on threads of their own", 3000, 30000), ("histories with a very long word next to a threshold match", 2000, 20000), ("histories with more than twenty fully tied records and a shrinking limit", 2000, 20000), ("histories with two lives of the same size ending in the same query", 2000, 20000), ("histories in which a text is followed by its own normalised spelling", 2000, 20000), ("histories with two long queries that share their first twenty letters", 1500, 15000)],
             Which::Registry => vec![("observations", 20000, 200000), ("observations with >= 2 live ids holding results", 2000, 20000), ("destroy", 300, 3000), ("searches", 3000, 30000), ("histories over 4-20 store ids", 1000, 10000), ("bursts of 45-120 records", 300, 3000), ("stores created with another language than their neighbours", 3000, 30000), ("searches repeating the text just sent to another id", 2000, 20000), ("histories whose result buffers are read only now and then", 5000, 50000), ("reads that add a record from inside the reader", 5000, 50000), ("searches repeated on the same id after a limit change", 5000, 50000), ("stores emptied in place through using_store", 2000, 20000), ("histories whose model stores answer on threads of their own", 5000, 50000), ("searches repeating the text this id was sent last", 3000, 30000), ("ids destroyed and created again under another language, then sent the same text", 3000, 30000)],
         }
     }
@@ -1285,6 +1285,27 @@ impl Prop for History {
                     }
                     cx.count("histories with more than twenty fully tied records and a shrinking limit");
                 }
+                let mut want_oracle_thread = false;
+                if cx.tier != Tier::Miri && cx.rng.chance(1, 15) {
+                    // a record that is one word of 24-45 letters; a query of the same length that shares its first 20-odd
+                    // letters and differs in its last ones; then the record's own spelling (judged against a reference
+                    // computed on a thread of its own)
+                    let alpha = gen::lower_alphabet(lang);
+                    let w = if cx.rng.chance(1, 2) { format!("{}{}", "a".repeat(20), gen::rand_word(&mut cx.rng, &alpha, 4, 20)) } else { gen::rand_word(&mut cx.rng, &alpha, 24, 45) };
+                    let mut cs: Vec<char> = w.chars().collect();
+                    let n = cs.len();
+                    for k in (n - (n - 20).min(10))..n {
+                        cs[k] = *cx.rng.pick(&alpha);
+                    }
+                    let w2: String = cs.into_iter().collect();
+                    ops.push(Op::Add(w.clone(), 3));
+                    ops.push(Op::Search(w2.clone()));
+                    ops.push(Op::Search(w.clone()));
+                    ops.push(Op::Search(w2));
+                    last_q = Some(w);
+                    want_oracle_thread = true;
+                    cx.count("histories with two long queries that share their first twenty letters");
+                }
                 if cx.tier != Tier::Miri && cx.rng.chance(1, 12) {
                     // a text, then the text its own normalisation has just produced (once composed, once reduced), as the next
                     // query or as the next title: what a language object keeps from one call must not pass for the next input
@@ -1356,7 +1377,7 @@ impl Prop for History {
                     run_history_registry(cx, lang, &ops);
                 } else {
                     let across = cx.tier != Tier::Miri && cx.rng.chance(1, 12);
-                    let oracle_thread = cx.tier != Tier::Miri && cx.rng.chance(1, 6);
+                    let oracle_thread = cx.tier != Tier::Miri && (want_oracle_thread || cx.rng.chance(1, 6));
                     run_history(cx, lang, &ops, true, across, oracle_thread);
                 }
             }
